@@ -26,6 +26,16 @@ Definition fe_discard (s : wstate) : wstate * out :=
   | KStorage _ => (s, ONil)
   end.
 
+Definition fe_has (s : wstate) (c : bytes) : out :=
+  match ws_kind s with KBlockstore => bs_has s c | KStorage _ => st_has s c end.
+Definition fe_get (s : wstate) (c : bytes) : out :=
+  match ws_kind s with KBlockstore => bs_get s c | KStorage _ => st_get s true c end.
+
+(* identity blocks are not written unless StoreIdentityCIDs: Put returns nil, Has/Get answer from
+   the CID itself -- acknowledged, but not to be looked for in the file *)
+Definition skipped_identity (o : wopts) (b : bytes * bytes) : bool :=
+  negb (w_storeid o) && match cid_parse (fst b) with Some p => is_identity p | None => false end.
+
 Definition run_puts (s : wstate) (bs : list (bytes * bytes)) : wstate :=
   fold_left (fun st b => fst (fe_put st b)) bs s.
 
@@ -256,9 +266,12 @@ Section Crash.
     match crash_class x start k t with COpen | CBoundary | CHead => true | _ => false end.
 
   (* blocks whose Put had returned when the crash happened / blocks ever handed to Put *)
+  (* number of puts of the crashing process that had returned when write k+1 was being issued *)
+  Definition cs_done (x : csess) (start : wstate) (k : nat) : nat :=
+    if (k <? loglen start)%nat then O else done_puts start (cs_puts x) (k - loglen start).
   Definition cs_acked (x : csess) (start : wstate) (acked_pre : list (bytes * bytes)) (k : nat)
     : list (bytes * bytes) :=
-    acked_pre ++ puts_acked start (firstn (done_puts start (cs_puts x) (k - loglen start)) (cs_puts x)).
+    acked_pre ++ puts_acked start (firstn (cs_done x start k) (cs_puts x)).
   Definition cs_attempted (x : csess) : list (bytes * bytes) :=
     concat (map fst (cs_pre x)) ++ cs_puts x.
 
